@@ -394,6 +394,9 @@ func (n *PathSelectorNode) Field(fieldName string) (PathNode, bool, error) {
 }
 
 func (n *PathSelectorNode) Get(src, dst reflect.Value) error {
+	if !src.IsValid() {
+		return fmt.Errorf("failed to get %s value from a nil value", n.selector)
+	}
 	switch src.Type().Kind() {
 	case reflect.Map:
 		iter := src.MapRange()
@@ -415,7 +418,7 @@ func (n *PathSelectorNode) Get(src, dst reflect.Value) error {
 		}
 	case reflect.Struct:
 		typ := src.Type()
-		for i := 0; i < typ.Len(); i++ {
+		for i := 0; i < typ.NumField(); i++ {
 			tag := runtime.StructTagFromField(typ.Field(i))
 			child, found, err := n.Field(tag.Key)
 			if err != nil {
@@ -470,6 +473,9 @@ func (n *PathIndexNode) Field(fieldName string) (PathNode, bool, error) {
 }
 
 func (n *PathIndexNode) Get(src, dst reflect.Value) error {
+	if !src.IsValid() {
+		return fmt.Errorf("failed to get [%d] value from a nil value", n.selector)
+	}
 	switch src.Type().Kind() {
 	case reflect.Array, reflect.Slice:
 		if src.Len() > n.selector {
@@ -513,6 +519,9 @@ func (n *PathIndexAllNode) Field(fieldName string) (PathNode, bool, error) {
 }
 
 func (n *PathIndexAllNode) Get(src, dst reflect.Value) error {
+	if !src.IsValid() {
+		return fmt.Errorf("failed to get all value from a nil value")
+	}
 	switch src.Type().Kind() {
 	case reflect.Array, reflect.Slice:
 		var arr []interface{}
@@ -578,6 +587,10 @@ func (n *PathRecursiveNode) Index(_ int) (PathNode, bool, error) {
 
 func valueToSliceValue(v interface{}) []interface{} {
 	rv := reflect.ValueOf(v)
+	if !rv.IsValid() {
+		// a null: one element
+		return []interface{}{v}
+	}
 	ret := []interface{}{}
 	if rv.Type().Kind() == reflect.Slice || rv.Type().Kind() == reflect.Array {
 		for i := 0; i < rv.Len(); i++ {
@@ -591,6 +604,9 @@ func valueToSliceValue(v interface{}) []interface{} {
 func (n *PathRecursiveNode) Get(src, dst reflect.Value) error {
 	if n.child == nil {
 		return fmt.Errorf("failed to get by recursive path ..%s", n.selector)
+	}
+	if !src.IsValid() {
+		return fmt.Errorf("failed to get %s value from a nil value", n.selector)
 	}
 	var arr []interface{}
 	switch src.Type().Kind() {
@@ -608,8 +624,9 @@ func (n *PathRecursiveNode) Get(src, dst reflect.Value) error {
 			if found {
 				var v interface{}
 				rv := reflect.ValueOf(&v)
-				_ = child.Get(iter.Value(), rv)
-				arr = append(arr, valueToSliceValue(v)...)
+				if err := child.Get(iter.Value(), rv); err == nil {
+					arr = append(arr, valueToSliceValue(v)...)
+				}
 			} else {
 				var v interface{}
 				rv := reflect.ValueOf(&v)
@@ -623,7 +640,7 @@ func (n *PathRecursiveNode) Get(src, dst reflect.Value) error {
 		return nil
 	case reflect.Struct:
 		typ := src.Type()
-		for i := 0; i < typ.Len(); i++ {
+		for i := 0; i < typ.NumField(); i++ {
 			tag := runtime.StructTagFromField(typ.Field(i))
 			child, found, err := n.Field(tag.Key)
 			if err != nil {
@@ -632,8 +649,9 @@ func (n *PathRecursiveNode) Get(src, dst reflect.Value) error {
 			if found {
 				var v interface{}
 				rv := reflect.ValueOf(&v)
-				_ = child.Get(src.Field(i), rv)
-				arr = append(arr, valueToSliceValue(v)...)
+				if err := child.Get(src.Field(i), rv); err == nil {
+					arr = append(arr, valueToSliceValue(v)...)
+				}
 			} else {
 				var v interface{}
 				rv := reflect.ValueOf(&v)
